@@ -245,6 +245,7 @@ def pyFormatFloat (p : PySpec) (bits : Nat) : Option (List Nat) :=
   match p.grouping, p.type with
   | some 44, some 110 | some 95, some 110 => none                -- no grouping with `n`
   | _, _ =>
+    if p.precision.getD 0 > 2147483647 then none else             -- "precision too big" (a C int)
     if !PV.Dec.isFinite bits then
       match floatBody p 0 with
       | none => none
